@@ -652,5 +652,6 @@ func main() {
 	// the pure recursive core of cty.Type, translated (translate.go)
 	ndefs := translateTyFns(*repo, *leanDir, hdr)
 	fmt.Printf("ctyextract: %d Lean definitions translated from cty.Type's Equals/TestConformance/HasDynamicTypes/WithoutOptionalAttributesDeep\n", ndefs)
+	fmt.Printf("ctyextract: %d Lean definitions translated from cty/unknown_refinement.go (Refine, RefinementBuilder, NewValue)\n", translateRefineFns(*repo, *leanDir, hdr))
 	fmt.Printf("ctyextract: %d stdlib functions, %d op prologues, %d delimiters, %d+%d primitive conversions\n", len(fns), len(ps), len(rs), len(safe), len(unsafe))
 }
